@@ -65,6 +65,9 @@ func DateFromProto(proto *dtpb.Date) (Date, error) {
 	case dtpb.Date_YEAR:
 		l = yearLayout
 	}
+	// A date has no time zone: keep the calendar date as written, so that
+	// comparisons do not shift it into another day (or year) of UTC.
+	t = time.Date(t.Year(), t.Month(), t.Day(), 0, 0, 0, 0, time.UTC)
 	return Date{t, l}, nil
 }
 
